@@ -304,6 +304,12 @@ def generate(rng, ncells=None, features=None):
         extra.append([f"f{t}:n", [str(c) for c in rng.sample(cell_numbers, min(len(cell_numbers), rng.randint(1, 3)))]])
         if "shortcuts" in F and rng.random() < 0.7:
             extra.append([f"e{t}", ["1e-8", f"{rng.randint(1, 6)}i", "1e-6", "1", "10", f"{rng.randint(1, 3)}r", "20"]])
+        if rng.random() < 0.5:
+            # tally segment card: segmenting surfaces, then the options T (total) and/or C (cumulative)
+            segs = [rng.choice(["-", ""]) + str(sn) for sn in rng.sample(surf_numbers, min(len(surf_numbers), rng.randint(1, 2)))]
+            extra.append([f"fs{t}", segs + rng.choice([[], ["t"], ["c"], ["t", "c"], ["T", "C"]])])
+        if rng.random() < 0.3:
+            extra.append([f"sd{t}", [spell(rng, fnum(rng, positive=True, small=True), False) for _ in range(rng.randint(1, 3))]])
     if "shortcuts" in F and rng.random() < 0.3:
         extra.append(["phys:n", [rng.choice(["j", "2j"]), "20", "j"]])
     return {
